@@ -211,13 +211,21 @@ def oracle_verdict(op, raised, rel, pr, _in_own_check=False):
         return "module %s is gone after the refactoring" % rel
     a = pr["oa"].get(na)
     if a is None or a["error"]:
-        culprit = a and a.get("culprit")
-        if culprit and culprit != rel2 and not _in_own_check:
-            # the exception was raised while another project module was executing: that module is the broken
-            # one if it also fails when imported on its own (it is then reported under its own name)
+        if not _in_own_check:
+            # the exception may have been raised while another project module was executing: report the module
+            # at the end of the blame chain (or one member of a blame cycle), everybody else is a consequence
             inv = {(r if raised else map_rel(op, r)): r for r in pr["names_before"]}
-            orig = inv.get(culprit)
-            if orig is not None and oracle_verdict(op, raised, orig, pr, True):
+
+            def fails(r2):
+                o = inv.get(r2)
+                return o is not None and bool(oracle_verdict(op, raised, o, pr, True))
+
+            def culprit_of(r2):
+                e = pr["oa"].get(pr["names_after"].get(r2))
+                return e.get("culprit") if e and e["error"] else None
+
+            failing = {r2 for r2 in pr["names_after"] if fails(r2)}
+            if L.blame_root(rel2, culprit_of, failing) != rel2:
                 return None
         return "module %s no longer imports: %s" % (rel2, a and a["error"])
     if len(a["obs"]) != len(b["obs"]):
